@@ -122,7 +122,8 @@ impl<'tcx> Interp<'tcx> {
                     // a boolean result that is an undecided comparison is returned as two
                     // partitions, each refined by the comparison's outcome
                     if bi.ret_bool {
-                        let undecided = matches!(&st.frames[fi].locals[0], Val::Int(i) if i.is_const().is_none());
+                        // (a secret-derived result stays one undecided value: a caller branching on it must see it is not a constant)
+                        let undecided = matches!(&st.frames[fi].locals[0], Val::Int(i) if i.is_const().is_none() && !(self.taint_track && i.taint != 0));
                         let ver = st.frames[fi].vers[0];
                         let has_def = st.frames[fi].bdefs.iter().any(|e| e.0 == 0 && e.1 == ver);
                         if undecided && has_def {
@@ -883,6 +884,7 @@ impl<'tcx> Interp<'tcx> {
         let probe_this = !self.probe_pats.is_empty() && self.probe_pats.iter().any(|p| bi.name.contains(p.as_str()) && (p.contains("{closure") || !bi.name.contains("{closure")));
         let probe_facts: String = if probe_this { st.facts.iter().map(|(k, v)| format!("{} => [{},{}]", k, v.0, v.1)).collect::<Vec<_>>().join(" ;; ") } else { String::new() };
         let rw_before = self.reject_witness.len();
+        self.scope_end.push(if probe_this { Some(Default::default()) } else { None });
         let saved_bb = (self.cur_bb, self.cur_call_bb);
         let t0 = std::time::Instant::now();
         let outs = self.exec_from(0, 0, &[], st, true);
@@ -893,6 +895,7 @@ impl<'tcx> Interp<'tcx> {
         }
         self.cur_bb = saved_bb.0;
         self.cur_call_bb = saved_bb.1;
+        let scope_end = self.scope_end.pop().flatten();
         self.stack.pop();
         if bi.scalar {
             self.region_depth -= 1;
@@ -991,6 +994,20 @@ impl<'tcx> Interp<'tcx> {
             }
             d.insert("reject_witness".to_string(), w.map(|v| super::jobs::val_summary(&v, 0).to_string()).unwrap_or_else(|| "null".into()));
             d.insert("path".to_string(), self.call_path());
+            if let Some(m) = &scope_end {
+                // final intervals of the named integer variables (join over every end of their storage)
+                let mut parts: Vec<String> = Vec::new();
+                for vdi in &bi.body.var_debug_info {
+                    if let rustc_middle::mir::VarDebugInfoContents::Place(pl) = &vdi.value {
+                        if pl.projection.is_empty() {
+                            if let Some(e) = m.get(&pl.local.as_u32()) {
+                                parts.push(format!("{}=[{},{}]", vdi.name, e.0, e.1));
+                            }
+                        }
+                    }
+                }
+                d.insert("scope_end".to_string(), parts.join(";"));
+            }
             d.insert("ret_cong".to_string(), probe_cong.clone());
             d.insert("first_atom".to_string(), atoms_before.to_string());
             self.probes.push(Probe { what: "ret".into(), inst: bi.name.clone(), ctx: String::new(), data: d });
